@@ -142,6 +142,18 @@ func (c *genCfg) inputs(emit func(string)) {
 			}
 			emit(s)
 		}
+	case "g3":
+		oc := &oracleCfg{prop: "C03", tier: c.tier, seed: c.seed, scale: c.scale}
+		enumC03(oc, func(in, what string) { emit(in) })
+	case "g4":
+		oc := &oracleCfg{prop: "C04", tier: c.tier, seed: c.seed, scale: c.scale}
+		enumC04(oc, func(fam, in string) { emit(in) })
+	case "g14":
+		oc := &oracleCfg{prop: "C14", tier: c.tier, seed: c.seed, scale: c.scale}
+		enumC14(oc, func(fam, in string, nt bool) { emit(in) })
+	case "g15":
+		oc := &oracleCfg{prop: "C15", tier: c.tier, seed: c.seed, scale: c.scale}
+		genC15(oc)(emit)
 	default:
 		panic("unknown stream " + c.stream)
 	}
@@ -203,6 +215,15 @@ func encodeScheme(rng *rand.Rand) string {
 // opsFor expands one input into the operations of the stream.
 func (c *genCfg) opsFor(s string, out []Op) []Op {
 	switch c.stream {
+	case "g3", "g14":
+		out = append(out, Op{Kind: "is", S: s})
+	case "g4":
+		out = append(out, Op{Kind: "x", S: s})
+	case "g15":
+		for ctx := 0; ctx < 5; ctx++ {
+			out = append(out, Op{Kind: "xc", A: ctx, S: s})
+		}
+		out = append(out, Op{Kind: "x", S: s})
 	case "sq":
 		for _, f := range sqlModes {
 			if c.ops["tok"] {
